@@ -235,6 +235,7 @@ func (f *Polynomial) Copy() *Polynomial {
 	for deg, c := range f.coefs {
 		h.coefs[deg] = c.Copy()
 	}
+	h.err = f.err
 	return h
 }
 
